@@ -18,7 +18,7 @@ void h_explicit_files_are_the_parsed_files() {
   for (int i = 0; i <= VU_MAXARGS + 1; i++) g_argv_store[i] = names[i];
   g_argv_store[vin_nfiles + 1] = 0;
   igate::source_file_directory._nonempty = nondet_bool();
-  g_chdir_ok = nondet_bool(); g_parse_ok = nondet_bool(); g_cwd = 0; g_abs_calls = g_parse_calls = g_inserted = 0;
+  g_chdir_ok = nondet_bool(); g_parse_ok = nondet_bool(); g_cwd = 0; g_abs_calls = g_parse_calls = g_inserted = g_inserted_canonical = 0;
   for (int i = 0; i <= VU_MAXARGS; i++) { g_abs_cwd[i] = -1; g_parse_cwd[i] = -2; }
   igate::output_function_names = nondet_bool(); igate::true_wrapper_names = nondet_bool();
   igate::build_c_wrappers = nondet_bool(); igate::build_python_wrappers = nondet_bool(); igate::build_python_obj_wrappers = nondet_bool(); igate::build_python_native = nondet_bool();
@@ -27,6 +27,7 @@ void h_explicit_files_are_the_parsed_files() {
   OBL(g_inserted == vin_nfiles && g_parse_calls == vin_nfiles, "C17.explicit_files: every command-line file is recorded as explicit and parsed, once");
   for (int i = 1; i <= VU_MAXARGS; i++) if (i <= vin_nfiles)
     OBL(g_abs_cwd[i] == g_parse_cwd[i], "C17.explicit_files: a command-line file is made absolute against the same working directory (the -srcdir, if given) against which it is then opened, so the recorded explicit file is the file that is parsed");
+  OBL(g_inserted_canonical == g_inserted, "C17.explicit_files: the explicit files are recorded under their canonical names (symbolic links resolved), the form under which an included file is looked up in the set: a file named through a symlinked directory is still the user's own");
   OBL(!igate::source_file_directory._nonempty || g_cwd == 1, "C17.explicit_files: with -srcdir the files are read from that directory");
   VU_REACHED();
 }
